@@ -101,6 +101,7 @@ type State struct {
 	pagedRequests int
 	curEnv   int
 	envN     int
+	known    [][]byte
 }
 
 func (st *State) curFnOr(cc *ssa.CallCommon) *ssa.Function {
